@@ -235,16 +235,21 @@ func vfChoose(shapes []vfShape, cased, full bool) (n, L, mode, rot, cs int) {
 	return
 }
 
-// vfThorough: shapes of the thorough tier: every length of Ls with 1..3 rows up to 61 columns,
-// 1..2 rows up to 81 columns, one row beyond (the cost of a case grows with (n*L)^2); rows from minn.
+// vfThorough: shapes of the thorough tier: every length of Ls with 1..3 rows up to 11 columns,
+// 1..2 rows up to 61 columns, one row beyond (the cost of a case grows with (n*L)^2, and with
+// symbolic symbols every '-'/'*'/'?' position forks in the lexers, so the thorough twins use
+// symbols while n*L <= 6 and letters beyond: every residue that may be a symbol doubles the
+// number of paths); rows from minn. (The first
+// version allowed 3 rows up to 61 and 2 up to 81 columns: the Stockholm twin alone passed 30 000
+// paths in 45 minutes.)
 func vfThorough(minn int, Ls []int) []vfShape {
 	var out []vfShape
 	for _, L := range Ls {
 		maxn := 3
-		if L > 61 {
+		if L > 11 {
 			maxn = 2
 		}
-		if L > 81 {
+		if L > 61 {
 			maxn = 1
 		}
 		if maxn < minn {
@@ -265,7 +270,7 @@ var vfFullL = []int{1, 2, 3, 9, 10, 11, 49, 50, 51, 59, 60, 61, 79, 80, 81, 119,
 
 func vfFasta(shapes []vfShape, syms, full bool) {
 	n, L, mode, rot, _ := vfChoose(shapes, false, full)
-	c := vfBuildPin(n, L, mode, syms, rot, csMixed, L > 11 && !full)
+	c := vfBuildPin(n, L, mode, syms && (!full || n*L <= 6), rot, csMixed, L > 11 && !full)
 	w := fasta.WriteAlignment(c.al)
 	got, err := fasta.NewParser(vfReader(w)).Parse()
 	verifReach("fasta round trip")
@@ -285,7 +290,7 @@ func H_C02_fasta() {
 func H_C02_fasta_syms() { vfFasta([]vfShape{{1, 1}, {2, 2}, {1, 81}}, true, false) }
 
 // H_C02_fasta_thorough: full length list and three rows.
-// bounds: L in {1,2,3,9,10,11,49,50,51,59,60,61,79,80,81,119,120,121,160,161} with n in 1..3 (L<=61), 1..2 (L<=81), 1 (beyond); letters and symbols; both families
+// bounds: L in {1,2,3,9,10,11,49,50,51,59,60,61,79,80,81,119,120,121,160,161} with n in 1..3 (L<=11), 1..2 (L<=61), 1 (beyond); letters, and symbols for n*L<=6; both families
 // outside: L > 161, n > 3
 //verif: tier=thorough
 func H_C02_fasta_thorough() {
@@ -329,7 +334,7 @@ func H_C02_phylip_syms() {
 }
 
 // H_C02_phylip_thorough: full length list, three rows, all 8 option combinations.
-// bounds: L in the full list {1,2,3,9,10,11,49,50,51,59,60,61,79,80,81,119,120,121} with n in 1..3 (L<=61), 1..2 (L<=81), 1 (beyond); letters, and symbols for L<=11; both families; 8 option combinations
+// bounds: L in the full list {1,2,3,9,10,11,49,50,51,59,60,61,79,80,81,119,120,121} with n in 1..3 (L<=11), 1..2 (L<=61), 1 (beyond); letters, and symbols for n*L<=6; both families; 8 option combinations
 // outside: L > 121
 //verif: tier=thorough
 func H_C02_phylip_thorough() { vfPhylip(vfThorough(1, vfFullL), true, true, []int{0, 1, 2, 3, 4, 5, 6, 7}) }
@@ -399,7 +404,7 @@ func vfNoKeywordRow(c vfCase) {
 
 func vfNexus(shapes []vfShape, syms, full, mixed, exclKeywords bool) {
 	n, L, mode, rot, cs := vfChoose(shapes, !mixed, full)
-	c := vfBuildPin(n, L, mode, syms, rot, cs, L > 11 && !full)
+	c := vfBuildPin(n, L, mode, syms && (!full || n*L <= 6), rot, cs, L > 11 && !full)
 	// known finding C02-nexus-keyword-token: a residue run (or name) that spells a Nexus lexer keyword is
 	// tokenised as the keyword. When it is listed, exactly that input region is excluded here and
 	// demonstrated by K_C02_nexus_kwrow / K_C02_nexus_kwname.
@@ -438,15 +443,34 @@ func H_C02_nexus_syms() { vfNexus([]vfShape{{1, 1}, {2, 2}, {1, 3}}, true, false
 
 var vfNexusThoroughL = []int{1, 2, 3, 4, 5, 6, 7, 8, 9, 10, 11, 60, 61, 121}
 
+// vfNexusThoroughShapes: the Nexus lexer compares every token with its 17 keywords, so a symbolic
+// row costs far more than in the other formats: 3 rows up to 3 columns, 2 rows up to 61, 1 beyond.
+func vfNexusThoroughShapes() []vfShape {
+	var out []vfShape
+	for _, L := range vfNexusThoroughL {
+		maxn := 2
+		if L <= 3 {
+			maxn = 3
+		}
+		if L > 61 {
+			maxn = 1
+		}
+		for n := 1; n <= maxn; n++ {
+			out = append(out, vfShape{n, L})
+		}
+	}
+	return out
+}
+
 // H_C02_nexus_thorough: every length 1..11 (all keyword lengths) and long rows, three rows.
-// bounds: L in {1..11, 60, 61} with n in 1..3, 121 with n = 1; letters (row-uniform case) and symbols; both families
+// bounds: L in {1..3} with n in 1..3, {4..11, 60, 61} with n in 1..2, 121 with n = 1; letters (row-uniform case), and symbols for n*L<=6; both families
 //verif: tier=thorough
-func H_C02_nexus_thorough() { vfNexus(vfThorough(1, vfNexusThoroughL), true, true, false, false) }
+func H_C02_nexus_thorough() { vfNexus(vfNexusThoroughShapes(), true, true, false, false) }
 
 // H_C02_nexus_nokw_thorough: thorough twin of H_C02_nexus_nokw.
 // bounds: as H_C02_nexus_thorough, keyword rows excluded
 //verif: tier=thorough
-func H_C02_nexus_nokw_thorough() { vfNexus(vfThorough(1, vfNexusThoroughL), true, true, false, true) }
+func H_C02_nexus_nokw_thorough() { vfNexus(vfNexusThoroughShapes(), true, true, false, true) }
 
 // ------------------------------------------------------------------ Clustal
 
@@ -461,7 +485,7 @@ func vfClustal(shapes []vfShape, syms, full, mixed bool, modes []int) {
 	if len(modes) == 1 {
 		mode = modes[0]
 	}
-	c := vfBuildPin(n, L, mode, syms, rot, cs, L > 11 && !full)
+	c := vfBuildPin(n, L, mode, syms && (!full || n*L <= 6), rot, cs, L > 11 && !full)
 	w := clustal.WriteAlignment(c.al)
 	got, err := clustal.NewParser(vfReader(w)).Parse()
 	verifReach("clustal round trip")
@@ -510,7 +534,7 @@ func H_C02_clustal_syms() {
 }
 
 // H_C02_clustal_thorough: full length list, one row.
-// bounds: n = 1, L in the full list, both families, row-uniform case, symbols
+// bounds: n = 1, L in the full list, both families, row-uniform case, symbols for L<=6
 //verif: tier=thorough
 func H_C02_clustal_thorough() {
 	var shapes []vfShape
@@ -521,15 +545,15 @@ func H_C02_clustal_thorough() {
 }
 
 // H_C02_clustal_rows_thorough: full length list, 2..3 rows of nucleotides in alternating case.
-// bounds: L in the full list with n in 2..3 (L<=61), n = 2 beyond; nucleotide family, rows alternate upper/lower case
+// bounds: L in {1,2,3,9,10,11,49,50,51,59,60,61} with n in 2..3 (L<=11), n = 2 beyond; nucleotide family, rows alternate upper/lower case (two rows of 79..121 columns cost minutes per case: one row there, H_C02_clustal_thorough)
 //verif: tier=thorough
-func H_C02_clustal_rows_thorough() { vfClustal(vfThorough(2, vfFullL), false, true, false, []int{vfNt}) }
+func H_C02_clustal_rows_thorough() { vfClustal(vfThorough(2, vfFullL[:12]), false, true, false, []int{vfNt}) }
 
 // ------------------------------------------------------------------ Stockholm
 
 func vfStockholm(shapes []vfShape, syms, full, mixed bool) {
 	n, L, mode, rot, cs := vfChoose(shapes, !mixed, full)
-	c := vfBuildPin(n, L, mode, syms, rot, cs, L > 11 && !full)
+	c := vfBuildPin(n, L, mode, syms && (!full || n*L <= 6), rot, cs, L > 11 && !full)
 	w := stockholm.WriteAlignment(c.al)
 	got, err := stockholm.NewParser(vfReader(w)).Parse()
 	verifReach("stockholm round trip")
@@ -547,7 +571,7 @@ func H_C02_stockholm() { vfStockholm([]vfShape{{1, 1}, {2, 2}, {2, 9}, {1, 61}},
 func H_C02_stockholm_syms() { vfStockholm([]vfShape{{1, 1}, {2, 2}, {1, 3}}, true, false, true) }
 
 // H_C02_stockholm_thorough: full length list, three rows.
-// bounds: L in the full list with n in 1..3 (L<=61), 1..2 (L<=81), 1 (beyond); letters (row-uniform case) and symbols; both families
+// bounds: L in the full list with n in 1..3 (L<=11), 1..2 (L<=61), 1 (beyond); letters (row-uniform case), and symbols for n*L<=6; both families
 //verif: tier=thorough
 func H_C02_stockholm_thorough() { vfStockholm(vfThorough(1, vfFullL), true, true, false) }
 
